@@ -77,6 +77,41 @@ def real_pes(case):
     return out
 
 
+def excited_md(case):
+    """Excited-state BOMD on a batch whose molecules sit on different excited states: the written total energy must be conserved
+    at the level of the integrator (fluctuation falls by 4 under step halving and stays small)."""
+    import os
+
+    import h5py
+    import numpy as np
+    import torch
+
+    from drivers import mdlib
+
+    common.quiet_stdio()
+    mdlib.use_stub(False)
+    wd = case["workdir"]
+    os.makedirs(wd, exist_ok=True)
+    out = {}
+    g = torch.Generator().manual_seed(8)
+    v0 = None
+    for dt in (0.2, 0.1):
+        params = {"scf_eps": 1.0e-10, "excited_states": {"n_states": 3, "method": "cis", "tolerance": 1e-8}, "active_state": torch.tensor(case["active"], dtype=torch.int64)}
+        c = dict(engine="basic", system="h2co_2", molid=[0, 1], steps=int(round(2.4 / dt)), cad=dict(data=1), xyz=0, ckpt=0, print=0, dt=dt, temp=0.0, params=params, reuse_P=True)
+        md, mol, rk = mdlib.build_md(c, os.path.join(wd, "dt%g" % dt))
+        if v0 is None:
+            v0 = 0.01 * (torch.rand(mol.coordinates.shape, generator=g, dtype=torch.float64) - 0.5)
+        mol.velocities = v0.clone()
+        md.run(mol, **rk)
+        fl = []
+        for m in (0, 1):
+            with h5py.File(os.path.join(wd, "dt%g.%d.h5" % (dt, m))) as f:
+                E = f["data/thermo/Ek"][()] + f["data/thermo/Ep"][()]
+            fl.append(float(np.abs(E - E[0]).max()))
+        out["%g" % dt] = fl
+    return out
+
+
 def main(tier):
     rep = common.Reporter(PROP, tier)
     rng = __import__("random").Random(common.seed() + 8)
@@ -142,6 +177,19 @@ def main(tier):
                 rep.violation("energy_fluctuation_not_second_order", info, what="fluctuation", **fields)
             if any(o["drift"][dt] > 1.5 * o["fluct"][dt] + 1e-9 for dt in o["drift"]):
                 rep.violation("energy_drift_beyond_fluctuation", info, what="drift", **fields)
+        ecases = [dict(active=[1, 2], workdir=__import__("os").path.join(scratch, "exmd_0"))] + ([dict(active=[2, 1], workdir=__import__("os").path.join(scratch, "exmd_1"))] if tier == "thorough" else [])
+        eres = common.run_forked(ecases, excited_md, timeout=1800)
+        for c, rr in zip(ecases, eres):
+            if not rr.get("ok"):
+                rep.machinery("excited-state MD monitor failed: " + str(rr.get("error")) + str(rr.get("tb"))[-300:])
+                continue
+            o = rr["result"]
+            info = {"active_states": c["active"], "fluctuation": o}
+            pes_info.append(info)
+            for m in (0, 1):
+                ratio = o["0.2"][m] / max(o["0.1"][m], 1e-300)
+                if o["0.2"][m] > 5.0e-3 or not 3.0 <= ratio <= 5.0:
+                    rep.violation("excited_state_md_energy_not_conserved", dict(info, molecule=m, ratio=ratio), what="excited_md", system="h2co_2", reuse_P=True, variant="real_pes", axis_aligned_bond=False)
         cov = {
             "real_pes_monitors": pes_info,
             "states": states, "transitions": trans, "traces_validated_against_impl": len(results), "behaviours_matching": n_ok,
